@@ -54,6 +54,9 @@
     F10 : when the loop of `solve_new_subgoal` stops through the ambiguity shortcut with
           `old ≠ new` the search graph is rolled back to `dfn + 1`.
     F16 : the last pass of `Fulfill::solve` propagates `NoSolution` (`?`) instead of `unwrap()`.
+  (F21 — `reached_fixed_point` now takes the early exit only for `Ambig(Unknown)`, not for an
+  ambiguous answer that carries guidance — is invisible here too: the model's `ambig` is
+  `Ambig(Unknown)`.)
   (F12 — the size test on the iteration's answer — is invisible here: the abstract value domain
   has height 2, see the remark at `reachedFixedPoint`.)
 
